@@ -131,6 +131,7 @@ def terms(E, cfg):
         ('product', lambda: (Term(((x, 1), (m, 1))) * Term(((m, 1),)), Term(((y, 1), (m, 2))))),
         ('quotient', lambda: (Term(((x, 1), (km, 1))) / Term(((s, 1),)), Term(((y, 1), (m, 1), (s, -1))))),
         ('power', lambda: (Term(((x, 1), (km, 1))) ** 2, Term(((y, 1), (m, 2))))),
+        ('same-key-order', lambda: (Term(((x, 1), (_eur(), 1), (_usd(), -1))), Term(((_usd(), -1), (y, 1), (_eur(), 1))))),
         ('numeric-kinds', lambda: (Term(((x, 1), (Decimal(2), 1), (m, 1))), Term(((y, 1), (Fraction(4, 2), 1), (m, 1))))),
     ]
     name, fn = E.choice('shape', builders)
@@ -138,6 +139,16 @@ def terms(E, cfg):
     _eq_implies_hash(E, t1, t2, 'equal-terms-hash-equal', 'term-hash:' + name, [name])
     E.check(E.Implies(t1 == t2, E.hash_equal(E.hash_of(t1.normalized()), E.hash_of(t2))), 'normal-form-hash-equal',
             key='term-hash-normalized:' + name)
+
+
+def _eur():
+    from quantity.money import Money
+    return Money.register_currency('EUR')
+
+
+def _usd():
+    from quantity.money import Money
+    return Money.register_currency('USD')
 
 
 def rates(E, cfg):
